@@ -172,7 +172,7 @@ def judge(run, c, r, ev):
 
 
 def run(run):
-    run.mc('MC_Ingest', f'MC_Ingest_{run.tier}', timeout=3000)
+    run.mc('MC_Ingest', f'MC_Ingest_win_{run.tier}', timeout=3000)
     cases = plan(run)
     par.G['sources'] = sources(run)
     items = [{'op': 'win', 'NI': SHAPES[c['src']][0], 'NX': SHAPES[c['src']][1], 'w': c['w'], 'narr': 1} for c in cases]
